@@ -44,8 +44,74 @@ def snap(objs):
     return out
 
 
+def addpath_sequences(ctx, I):
+    """sequences of scorings through the exact K-NN / join path (decision diagrams) in ONE process, each compared with the Shapley value of the K-NN game computed by
+    definition: (a) fresh objects on data sets with the SAME K and number of classes but a GROWING number of units; (b) the same provenance object and data scored with
+    different K one after the other; (c) one object re-fitted along the way.  Anything a scoring leaves behind in the process (a cached tally type, a cached compiled
+    diagram ...) shows up in a later member of the sequence."""
+    from fractions import Fraction
+    import gen
+    import spec
+    from props.c01 import additive_utility
+    rng = ctx.rng
+    for seq in range(2 if ctx.tier == "quick" else 5):
+        kind = ["growing", "same-provenance"][seq % 2]
+        c = rng.randint(2, 3)
+        K0 = rng.randint(1, 2)
+        plan = []
+        if kind == "growing":
+            for n_units in sorted(rng.sample(range(2, 6), 3)):
+                plan.append(dict(n_units=n_units, K=K0, fresh_prov=True))
+        else:
+            n_units = rng.randint(3, 4)
+            for K in rng.sample([1, 2, 3], 3):
+                plan.append(dict(n_units=n_units, K=K, fresh_prov=False))
+        shared = None
+        imp_shared = None
+        for step, st in enumerate(plan):
+            n_units, K = st["n_units"], st["K"]
+            if shared is None or st["fresh_prov"]:
+                n_rows = rng.randint(max(K + 1, 3), 4)
+                rows = gen.rand_hypergraph(rng, n_units, n_rows, 2)
+                if all(len(r) == 1 for r in rows):
+                    rows[0] = sorted(rng.sample(range(n_units), 2))          # at least one row needs two units: the diagram path whatever K is
+                y_train = [k % c for k in range(n_rows)]
+                rng.shuffle(y_train)
+                dist = np.array(gen.distinct_distances(rng, n_rows, 1), dtype=float)
+                prov = conj_prov(I, rows, n_units)[0]
+                shared = (rows, y_train, dist, prov, n_rows)
+            rows, y_train, dist, prov, n_rows = shared
+            classes = sorted(set(y_train))
+            Um = [[rng.randrange(-8, 9)] for _ in classes]
+            nl = [rng.randrange(-8, 9)]
+            util = additive_utility(I, Um, nl)
+            case = dict(part="addpath-sequence", kind=kind, step=step, plan=plan, nUnits=n_units, rows=rows, y_train=y_train, dist=dist.tolist(), K=K, util=Um, nulls=nl)
+            enc = {cl: k for k, cl in enumerate(classes)}
+            lab = [enc[yy] for yy in y_train]
+            order = sorted(range(n_rows), key=lambda r: dist[r, 0])
+            want = spec.shapley(n_units, lambda S: spec.knn_value({r for r in range(n_rows) if all(u in S for u in rows[r])}, order, lab,
+                                                                   [Fraction(Um[k][0]) for k in range(len(classes))], Fraction(nl[0]), K, len(classes)))
+            ctx.case(case, nontrivial=(step >= 1), sample=case, part="addpath-sequence", kind=kind)
+            try:
+                if imp_shared is None or step % 2 == 0:
+                    imp_shared = I["imp"].ShapleyImportance(method="neighbor", utility=util, nn_k=K, nn_distance=lambda A, B, D=dist: D.copy())
+                else:
+                    imp_shared.nn_k, imp_shared.utility, imp_shared.nn_distance = K, util, (lambda A, B, D=dist: D.copy())       # the same object, re-fitted
+                res = list(np.asarray(imp_shared.fit(np.arange(n_rows, dtype=float).reshape(-1, 1), np.array(y_train), provenance=prov)
+                                      .score(np.zeros((1, 1)), np.array([classes[0]])), dtype=float))
+            except Exception as e:  # noqa
+                ctx.mismatch("score() raised in a sequence of scorings through the decision-diagram path", case, impl=exc_name(e) + ": " + repr(e), spec=[str(x) for x in want])
+                break
+            if not ctx.vec_close(res, want, 9):
+                ctx.mismatch("a neighbor score through the decision-diagram path is wrong AFTER earlier scorings in the same process (step %d of the sequence; the same call is "
+                             "right when it comes first)" % step if step else "neighbor scores (ADD path) are not the Shapley value of the K-NN game",
+                             case, impl=res, spec=[str(x) for x in want])
+                break
+
+
 def run(ctx):
     I = load_impl(ctx)
+    addpath_sequences(ctx, I)
     import pandas as pd
     from sklearn.neighbors import KNeighborsClassifier
     U = I["utility"]
